@@ -6,7 +6,7 @@
    processing orders of the CHILDREN give semantically equal results, and that the preprocessing stages are
    order-insensitive. *)
 From Coq Require Import List String QArith Permutation.
-From Bq Require Import Expr ExprFacts RepModel Routine Compare Compile CompileTop EvaluateFacts ListingFacts LocalsOrderFacts.
+From Bq Require Import Expr ExprFacts RepModel Routine Compare Compile CompileTop EvaluateFacts ListingFacts LocalsOrderFacts InputsOrderFacts.
 Import ListNotations.
 Open Scope string_scope.
 
@@ -80,3 +80,33 @@ Proof.
   - repeat constructor; cbn; intuition discriminate.
   - apply perm_swap.
 Qed.
+
+(* ---------- the listing order of a whole dictionary of inputs: the whole subtree ---------- *)
+
+(* for ANY carrier and any expression step that reads its dictionary through lookups: two listings of the same inputs
+   dictionary (same value for every key, same keys, same values) compile a routine to the same tree -- resources, port
+   sizes, constraints, repetition and, identically, all children; only the stored copy of the inputs is listed as given.
+   (The order of input parameters and of link entries only decides the order in which such a dictionary is filled.) *)
+Theorem C09_inputs_dictionary_listing_free :
+  forall (D : Type) (ev : list (string * D) -> expr -> result D) (statusD : D -> D -> cstatus) (fvD : D -> list string),
+    (forall env env' e, (forall k, lookup k env = lookup k env') -> ev env e = ev env' e) ->
+    forall fuel r inputs inputs' t,
+      env_sim inputs inputs' -> go ev statusD fvD fuel r inputs = Ok t ->
+      go ev statusD fvD fuel r inputs' = Ok (set_inputs D t inputs').
+Proof. exact go_sim. Qed.
+Print Assumptions C09_inputs_dictionary_listing_free.
+
+(* the compile model is such a step: any permutation of an inputs dictionary with distinct keys *)
+Theorem C09_compile_inputs_listing_free : forall fuel r (inputs inputs' : list (string * expr)) t,
+  Permutation inputs inputs' -> NoDup (keys inputs) -> go ev_subst statusE fv fuel r inputs = Ok t ->
+  go ev_subst statusE fv fuel r inputs' = Ok (set_inputs expr t inputs').
+Proof. exact compile_inputs_listing_free. Qed.
+Print Assumptions C09_compile_inputs_listing_free.
+
+Example C09_inputs_listing_nonvacuous :
+  let leaf := Routine "a" None ["x"; "y"] [] [] [] [Build_resource "T" RAdditive (eadd (ESym "x") (emul (EZ 2) (ESym "y")))] [] None [] [] in
+  let i1 := [("x", ESym "N"); ("y", ESym "M")] in
+  let i2 := [("y", ESym "M"); ("x", ESym "N")] in
+  exists t, go ev_subst statusE fv 2 leaf i1 = Ok t /\ go ev_subst statusE fv 2 leaf i2 = Ok (set_inputs expr t i2) /\
+            map (fun nr => snd (snd nr)) (ct_resources t) = [eadd (ESym "N") (emul (EZ 2) (ESym "M"))].
+Proof. eexists. repeat split; vm_compute; reflexivity. Qed.
